@@ -462,7 +462,11 @@ def replay(pid, modname, path):
     import importlib
     mod = importlib.import_module(modname)
     payload = json.load(open(path))
-    sub = {s.name: s for s in mod.subs()}[payload["sub"]]
+    table = {s.name: s for s in mod.subs()}
+    sub = table.get(payload["sub"])
+    if sub is None:  # sub-check renamed or split since the file was written: same oracle family by prefix, else the first
+        close = [s for n, s in table.items() if n.startswith(payload["sub"]) or payload["sub"].startswith(n)]
+        sub = (close or list(table.values()))[0]
     try:
         sub.oracle(payload["case"])
     except KnownFinding as k:
